@@ -12,7 +12,7 @@ from vlib import runner
 ID = "C02"
 MODULE = "PotasscoVerif.Props.C02"
 EXTRA_MODULES = ["PotasscoVerif.Props.C02o", "PotasscoVerif.Props.C02sem", "PotasscoVerif.Lemmas.AspEnum", "PotasscoVerif.Props.C02x", "PotasscoVerif.Lemmas.ConvertExt", "PotasscoVerif.Props.C02m", "PotasscoVerif.Lemmas.ConvertSteps", "PotasscoVerif.Lemmas.ConvertStepsExt"]
-THEOREMS = ["PotasscoVerif.C02.C02_steps_outputs", "PotasscoVerif.C02.C02_steps_equivalence", "PotasscoVerif.C02.C02_steps_equivalence_ext", "PotasscoVerif.C02.C02_stable_models", "PotasscoVerif.C02.C02_equivalence", "PotasscoVerif.C02.C02_cost", "PotasscoVerif.C02.C02_compute_false",
+THEOREMS = ["PotasscoVerif.C02.C02_steps_outputs", "PotasscoVerif.C02.C02_steps_equivalence", "PotasscoVerif.C02.C02_steps_equivalence_ext", "PotasscoVerif.C02.C02_steps_minimize", "PotasscoVerif.C02.C02_steps_cost", "PotasscoVerif.C02.C02_stable_models", "PotasscoVerif.C02.C02_equivalence", "PotasscoVerif.C02.C02_cost", "PotasscoVerif.C02.C02_compute_false",
             "PotasscoVerif.Asp.translation_stable", "PotasscoVerif.Asp.translation_stable_back", "PotasscoVerif.Asp.stableB_iff", "PotasscoVerif.Asp.stableModels_complete", "PotasscoVerif.Asp.stableModels_sound",
             "PotasscoVerif.C02.C02_map_injective", "PotasscoVerif.C02.C02_map_stable", "PotasscoVerif.C02.C02_aux_fresh", "PotasscoVerif.C02.convert_steps",
             "PotasscoVerif.C02.C02_minimize_flip", "PotasscoVerif.C02.C02_minimize_sorted", "PotasscoVerif.C02.flushMinimize_order",
@@ -23,7 +23,7 @@ THEOREMS = ["PotasscoVerif.C02.C02_steps_outputs", "PotasscoVerif.C02.C02_steps_
 PARTIAL = {"several steps with external directives, extension OFF": "proved for several steps: C02_steps_stable_models (no external directives, extension on or off) and C02_steps_stable_models_ext (ANY external "
            "directives, extension on: the directives of all steps read together — an external on an atom no rule of any step defines, the last directive over all steps counts — against the external calls emitted "
            "over all steps). Without the extension the externals of each step are compiled into rules at the end of that step and cannot be taken back in a later step: what such a program means over several "
-           "steps is not a property of the converter; there the check compares model == implementation and the atom map only. Shown names are proved over all steps (C02_steps_equivalence, C02_steps_equivalence_ext, C02_steps_outputs), costs per step"}
+           "steps is not a property of the converter; there the check compares model == implementation and the atom map only. Shown names and costs are proved over all steps (C02_steps_equivalence, C02_steps_equivalence_ext, C02_steps_outputs, C02_steps_minimize, C02_steps_cost)"}
 BSIZES = (4096,)
 LPCONVERT = True
 RULE = ("programs of 1..8 directives over 2..6 atoms: disjunctive/choice heads incl. empty, normal and weight bodies (bounds < 0, 0, reachable, unreachable; weights 0/1/mixed), "
@@ -176,7 +176,8 @@ def check_steps(c, emitted_words, amap):
             elif s[0] == "S": orig["rules"].append((s[1], s[2], ("s", s[3], [tuple(x) for x in s[4]])))
             elif s[0] == "X": orig["externals"][s[1]] = s[2]         # the last directive over all steps counts (extension on: C02_steps_stable_models_ext)
             elif s[0] == "O": orig["outputs"].append((progs.hexs(bytes(s[1]) if not isinstance(s[1], str) else bytes.fromhex(s[1])), s[2]))
-    conv = parse_words([w for w in emitted_words if w[0] in "RSAXO"])
+            elif s[0] == "M": orig["minimize"].append((s[1], [tuple(x) for x in s[2]]))
+    conv = parse_words([w for w in emitted_words if w[0] in "RSAXOM"])
     oa = sorted(asp_sem.atoms_of(orig)); ca = sorted(asp_sem.atoms_of(conv))
     if len(oa) > 6 or len(ca) > 8: return None
     if len(set(amap.values())) != len(amap): return ("C02:atom-map", "the atom map is not injective after several steps", {"map": amap})
@@ -194,6 +195,15 @@ def check_steps(c, emitted_words, amap):
         I = frozenset(inv[x] for x in J if x in inv)
         if asp_sem.shown(orig, I) != asp_sem.shown(conv, J):
             return ("C02:shown-symbols", "several steps: a stable model shows different symbol names", {"orig": asp_sem.shown(orig, I), "conv": asp_sem.shown(conv, J), "model": sorted(I)})
+    # C02_steps_cost: per priority, the statements emitted over all steps cost what the statements given over all steps cost, up to a constant
+    diffs = {}
+    for J in sm_c:
+        I = frozenset(inv[x] for x in J if x in inv)
+        co, cc = asp_sem.costs(orig, I), asp_sem.costs(conv, J)
+        if set(co) != set(cc): return ("C02:cost", "several steps: different priorities", {"orig": co, "conv": cc})
+        for p in co:
+            d = cc[p] - co[p]
+            if diffs.setdefault(p, d) != d: return ("C02:cost", "several steps: per-priority cost differs by a non-constant amount", {"prio": p, "orig": co, "conv": cc})
     return "ok"
 
 def evaluate(ctx, cases):
